@@ -1186,6 +1186,29 @@ pub fn extra_targets() -> Vec<TypeOps> {
         ops!(Vec<(String, u8)>, "Vec<(String,u8)>"),
         ops!(u8, "u8"),
         ops!(i128, "i128"),
+        // compositions of Option / sequence / unit / map at the top level
+        ops!(Option<String>, "Option<String>"),
+        ops!(Option<Option<String>>, "Option<Option<String>>"),
+        ops!(Option<Vec<String>>, "Option<Vec<String>>"),
+        ops!(Option<()>, "Option<unit>"),
+        ops!(Vec<Option<String>>, "Vec<Option<String>>"),
+        ops!(Vec<Option<u8>>, "Vec<Option<u8>>"),
+        ops!(Vec<Option<Inner>>, "Vec<Option<Inner>>"),
+        ops!(Vec<Option<()>>, "Vec<Option<unit>>"),
+        ops!(Vec<()>, "Vec<unit>"),
+        ops!(Vec<UnitStruct>, "Vec<UnitStruct>"),
+        ops!(Vec<Unit3>, "Vec<Unit3>"),
+        ops!(Vec<f64>, "Vec<f64>"),
+        ops!(Vec<ignored::Ign>, "Vec<IgnoredAny>"),
+        ops!(ignored::Ign, "IgnoredAny"),
+        ops!(Vec<OptValue>, "Vec<OptValue>"),
+        ops!((Option<String>, Option<u8>, Vec<Option<String>>), "(Option,Option,Vec<Option>)"),
+        ops!(std::collections::HashMap<String, Option<String>>, "HashMap<String,Option<String>>"),
+        ops!(BTreeMap<String, Vec<Option<String>>>, "BTreeMap<String,Vec<Option<String>>>"),
+        ops!(BTreeMap<String, ()>, "BTreeMap<String,unit>"),
+        ops!(BTreeMap<String, ignored::Ign>, "BTreeMap<String,IgnoredAny>"),
+        ops!(Vec<BTreeMap<String, String>>, "Vec<BTreeMap<String,String>>"),
+        ops!(Box<Option<Box<Inner>>>, "Box<Option<Box<Inner>>>"),
     ]
 }
 
